@@ -34,9 +34,12 @@ class _Ctl(object):
 class Execution(object):
     """One run of `bodies` under a prefix of choices."""
 
-    def __init__(self, bodies, prefix):
+    def __init__(self, bodies, prefix, trace_files=()):
         self.bodies = bodies
         self.prefix = list(prefix)
+        # file name suffixes whose every executed LINE is a scheduling
+        # point (sys.settrace in the managed threads)
+        self.trace_files = tuple(trace_files)
         n = len(bodies)
         self.sems = [threading.Semaphore(0) for _ in range(n)]
         self.control = threading.Semaphore(0)
@@ -52,10 +55,28 @@ class Execution(object):
     def _wrap(self, tid):
         def run():
             self.sems[tid].acquire()
+            ctl = _Ctl(self, tid)
+            if self.trace_files:
+                import sys
+
+                def local(frame, event, arg):
+                    if event == 'line':
+                        ctl.point()
+                    return local
+
+                def tracer(frame, event, arg):
+                    if frame.f_code.co_filename.endswith(self.trace_files):
+                        return local
+                    return None
+                sys.settrace(tracer)
             try:
-                self.results[tid] = self.bodies[tid](_Ctl(self, tid))
+                self.results[tid] = self.bodies[tid](ctl)
             except BaseException as e:      # reported by the oracle
                 self.errors[tid] = e
+            finally:
+                if self.trace_files:
+                    import sys
+                    sys.settrace(None)
             self.done[tid] = True
             self.control.release()
         return run
@@ -102,7 +123,8 @@ class Execution(object):
                    if still and c != 0)
 
 
-def explore(make_bodies, check, bound=2, max_executions=None):
+def explore(make_bodies, check, bound=2, max_executions=None,
+            trace_files=()):
     """make_bodies() -> (bodies, context) builds FRESH objects for one
     execution; check(execution, context) -> list of violations. Returns
     (executions, distinct traces, violations[(trace, choices, v)])."""
@@ -115,7 +137,7 @@ def explore(make_bodies, check, bound=2, max_executions=None):
             stats['capped'] = True
             return
         bodies, ctx = make_bodies()
-        x = Execution(bodies, prefix).run()
+        x = Execution(bodies, prefix, trace_files).run()
         stats['executions'] += 1
         stats['traces'].add(tuple(x.trace))
         choices = [c for (en, c, still) in x.decisions]
